@@ -20,6 +20,25 @@ pub fn judge(w: &Worker, scen: &Scenario, ex: &Exec) -> Judgement {
     simple_judge(v, ex, exit0(ex))
 }
 
+/// two special sources with the same basename into one directory under -n: whichever is created first must
+/// stay, the run must fail, nothing is ever unlinked
+pub fn judge_same_target(_w: &Worker, _scen: &Scenario, ex: &Exec) -> Judgement {
+    let mut v = vec![];
+    if exit0(ex) {
+        v.push("exit 0 although the second node maps onto an entry that exists by the time it is handled (-n)".into());
+    }
+    for e in &ex.res.events {
+        if matches!(e.name.as_str(), "unlink" | "unlinkat" | "rename" | "renameat" | "renameat2") && e.ret == 0 && e.rel.as_deref().map(|r| r.starts_with("dst")).unwrap_or(false) {
+            v.push(format!("{} of {} although --no-clobber is set", e.name, e.rel.clone().unwrap_or_default()));
+        }
+    }
+    let made: Vec<&crate::sup::Ev> = ex.res.events.iter().filter(|e| (e.name == "mknodat" || e.name == "mknod") && e.ret == 0).collect();
+    if made.len() > 1 {
+        v.push("two nodes were created at the same destination path under --no-clobber".into());
+    }
+    simple_judge(v, ex, true)
+}
+
 pub fn scenarios(quick: bool) -> Vec<Scenario> {
     let mut v = vec![];
     let kinds: Vec<(&str, Kind)> = vec![("fifo", Kind::Fifo), ("sock", Kind::Socket), ("chr1_3", Kind::Chr(1, 3)), ("chr5_1", Kind::Chr(5, 1)), ("chr240_7", Kind::Chr(240, 7)), ("chr1_300", Kind::Chr(1, 300))];
@@ -121,5 +140,18 @@ pub fn run(ctx: &Ctx) -> Report {
     }
     let st = crate::explore::explore(&ctx.pool, jobs, j);
     rep.part("four nodes copied by concurrent workers, schedule search", st, serde_json::json!({"d": d, "umask": ["022", "077"]}));
+    let mut jobs = vec![];
+    for drv in drivers() {
+        for w in ["1", "2"] {
+            let tree = vec![Entry::dir("a"), Entry::dir("b"), Entry::new("a/p", Kind::Fifo).mode(0o600), Entry::new("b/p", Kind::Chr(1, 3)).mode(0o640), Entry::dir("dst")];
+            let s = std::sync::Arc::new(Scenario::new(&format!("same-target-noclobber-{}-w{}", drv, w), tree, &["-n", "--driver", drv, "-w", w, "a/p", "b/p", "dst"]));
+            for b in base_specs() {
+                jobs.push((s.clone(), b, d));
+            }
+        }
+    }
+    let js: Judge = &judge_same_target;
+    let st = crate::explore::explore(&ctx.pool, jobs, js);
+    rep.part("-n with two nodes mapping onto one path: the entry appears between the walker's probe and the worker", st, serde_json::json!({"d": d}));
     rep
 }
